@@ -15,6 +15,7 @@ import (
 	"strings"
 	"sync"
 	"sync/atomic"
+	"syscall"
 	"testing"
 	"time"
 
@@ -49,6 +50,7 @@ type world struct {
 	p2lock   sync.RWMutex // held for reading by requests to p2, for writing across reloads that may drop p2
 	p2stable bool
 	bad      []event
+	sigDone  chan string // signal-driven reloads: how the reload ended, told by the callback gates
 }
 
 func (w *world) emit(e event) {
@@ -131,16 +133,50 @@ func (w *world) get(a string, ms int) (int, string, string) {
 	return g, "ok", ""
 }
 
+var (
+	sigOnce   sync.Once
+	sigInput  atomic.Value // casket.Input the registered loader hands out
+	sigLoaded bool
+)
+
+// reloadBySignal sends SIGUSR1 to this process and waits for the reload the signal handler runs.
+func (w *world) reloadBySignal(old *casket.Instance, in casket.Input) (*casket.Instance, error) {
+	sigInput.Store(in)
+	select {
+	case <-w.sigDone:
+	default:
+	}
+	if err := syscall.Kill(os.Getpid(), syscall.SIGUSR1); err != nil {
+		return old, err
+	}
+	select {
+	case r := <-w.sigDone:
+		if r == "err" {
+			return old, fmt.Errorf("reload by SIGUSR1 failed")
+		}
+	case <-time.After(20 * time.Second):
+		return old, fmt.Errorf("reload by SIGUSR1 did not finish")
+	}
+	// the handler replaces the instance right after the old one's shutdown callbacks
+	for i := 0; i < 2000; i++ {
+		if l := casket.Instances(); len(l) == 1 && l[0] != old {
+			return l[0], nil
+		}
+		time.Sleep(100 * time.Microsecond)
+	}
+	return old, fmt.Errorf("instance list not updated after a reload by SIGUSR1")
+}
+
 var kinds = []string{"ok", "ok", "ok", "failparse", "failsetup", "failstartup", "faillisten"}
 
 // scenario runs one world: nReloads reloads under nClients free-running clients.
-func scenario(t *testing.T, rnd *rand.Rand, nReloads, nClients int, dropEvent bool, grace time.Duration) ([]event, []event, error) {
+func scenario(t *testing.T, rnd *rand.Rand, nReloads, nClients int, dropEvent bool, grace time.Duration, viaSignal bool) ([]event, []event, error) {
 	// the grace period of the servers created from now on (-grace flag; 0 = do not wait for
 	// in-flight requests, which must complete all the same)
 	oldGrace := httpserver.GracefulTimeout
 	httpserver.GracefulTimeout = grace
 	defer func() { httpserver.GracefulTimeout = oldGrace }()
-	w := &world{t: t, dir: t.TempDir(), port: map[string]int{"p1": hx.FreePort(), "p2": hx.FreePort()}, p2stable: true}
+	w := &world{t: t, dir: t.TempDir(), port: map[string]int{"p1": hx.FreePort(), "p2": hx.FreePort()}, p2stable: true, sigDone: make(chan string, 1)}
 	var err error
 	w.busy = hx.ListenFresh()
 	defer w.busy.Close()
@@ -151,16 +187,42 @@ func scenario(t *testing.T, rnd *rand.Rand, nReloads, nClients int, dropEvent bo
 			return // initial start, before the trace begins
 		}
 		switch point {
+		case "restartfailed":
+			select {
+			case w.sigDone <- "err":
+			default:
+			}
 		case "startup":
 			w.request("p1")
 			w.emit(event{Ev: "startupcb", G: gen}) // logged at exit: requests made inside precede it
 		case "shutdown":
 			w.emit(event{Ev: "shutdowncb", G: gen}) // logged at entry: requests made inside follow it
 			w.request("p1")
+			select {
+			case w.sigDone <- "ok":
+			default:
+			}
 		}
 	})
 	defer probe.SetGate(nil)
-	inst, err := casket.Start(w.config(1, "ok", []string{"p1", "p2"}))
+	first := w.config(1, "ok", []string{"p1", "p2"})
+	if viaSignal {
+		sigOnce.Do(func() {
+			casket.RegisterCasketfileLoader("verifc07", casket.LoaderFunc(func(string) (casket.Input, error) {
+				in, _ := sigInput.Load().(casket.Input)
+				return in, nil
+			}))
+			casket.TrapSignals()
+			time.Sleep(20 * time.Millisecond) // the handler goroutines install themselves asynchronously
+		})
+		sigInput.Store(first)
+		loaded, lerr := casket.LoadCasketfile("http") // records which loader reloads will use
+		if lerr != nil {
+			return nil, nil, lerr
+		}
+		first = loaded
+	}
+	inst, err := casket.Start(first)
 	if err != nil {
 		return nil, nil, fmt.Errorf("initial start: %v", err)
 	}
@@ -214,7 +276,15 @@ func scenario(t *testing.T, rnd *rand.Rand, nReloads, nClients int, dropEvent bo
 			w.p2stable = false
 		}
 		w.emit(event{Ev: "call", G: gen, Kind: kind, Ports: ports})
-		ni, rerr := inst.Restart(w.config(gen, kind, ports))
+		var ni *casket.Instance
+		var rerr error
+		if viaSignal {
+			// the production path: SIGUSR1 -> registered loader -> Restart inside the signal handler;
+			// the callback gates tell how it ended
+			ni, rerr = w.reloadBySignal(inst, w.config(gen, kind, ports))
+		} else {
+			ni, rerr = inst.Restart(w.config(gen, kind, ports))
+		}
 		res := "ok"
 		if rerr != nil {
 			res = "err"
@@ -281,7 +351,8 @@ func TestC07(t *testing.T) {
 	total := 0
 	for s := 0; s < nScen; s++ {
 		grace := []time.Duration{5 * time.Second, 0, 30 * time.Millisecond}[s%3]
-		ev, bad, err := scenario(t, rnd, nReloads, nClients, hx.SelfTest() && s == 0, grace)
+		viaSignal := (s/3)%2 == 1 // every other group of three scenarios reloads through SIGUSR1 and the registered loader
+		ev, bad, err := scenario(t, rnd, nReloads, nClients, hx.SelfTest() && s == 0, grace, viaSignal)
 		if err != nil {
 			res.Infra = err.Error()
 			break
@@ -310,7 +381,7 @@ func TestC07(t *testing.T) {
 			nt = key
 		}
 		res.Count(nt)
-		res.Sample(map[string]interface{}{"scenario": s, "grace": grace.String(), "reloads_ok": okN, "reloads_failed": errN, "requests": reqN, "first_events": ev[:min(len(ev), 12)]})
+		res.Sample(map[string]interface{}{"scenario": s, "grace": grace.String(), "via_sigusr1": viaSignal, "reloads_ok": okN, "reloads_failed": errN, "requests": reqN, "first_events": ev[:min(len(ev), 12)]})
 		res.AddExtra(key, map[string]int{"reloads_ok": okN, "reloads_failed": errN, "requests": reqN})
 	}
 	tw.Close()
